@@ -361,7 +361,7 @@ func runShards(e entry, bin, wd, tier string, seed int64, replay string) []shard
 			os.Remove(out + ".crumb")
 			os.Remove(out + ".distinct")
 			hard := time.Duration(budget)*time.Second*3 + 120*time.Second
-			cmd := exec.Command(bin, "-test.run", "^"+test+"$", "-test.timeout", fmt.Sprintf("%ds", int(hard.Seconds())+60), "-test.v")
+			cmd := exec.Command(bin, "-test.run", "^"+test+"$", "-test.timeout", fmt.Sprintf("%ds", int(hard.Seconds())+60))
 			cmd.Dir = filepath.Join(repoDir, e.Pkg)
 			if _, err := os.Stat(cmd.Dir); err != nil {
 				cmd.Dir = wd
